@@ -699,7 +699,8 @@ def resample_chunks(ctx):
             raise Fail(f"n={n}: resampled frequencies {out} hold {tot} shots (sum of frequencies {math.fsum(out.values())})",
                        sig="get_resampled_frequencies:chunk-boundary:total")
         for k, p in f.items():
-            if abs(out.get(k, 0.0) - p) > 6.5 * math.sqrt(p * (1 - p) / n) + 1.0 / n:
+            from vlib.stats import binomial_ok
+            if not binomial_ok(out.get(k, 0.0) * n, n, p):
                 raise Fail(f"n={n}: frequency of {k} is {out.get(k, 0.0)}, source {p} (>6.5 sigma)", sig="get_resampled_frequencies:chunk-boundary:dist")
         return True, (f"shots={n}", f"outcomes={len(f)}")
 
